@@ -190,12 +190,14 @@ func (OracleC13) Judge(w *World, b *BlockCtx, p *ProbeResult) {
 						return false
 					}
 					if mustPass && vr.Resp.Code != 0 {
-						w.Report("C13", "pool-value", "tight-minimum-refused", fmt.Sprintf("height %d: the same removal asking for exactly the %s / %s it returned is refused with code %d (%s)", p.Height, v0, v1, vr.Resp.Code, vr.Resp.Log), p.Height)
-						return false
+						// conservative refusal: not what C13 / C06 speak about as long as CheckTx agrees
+						w.Probe("c13_remove_tight_minimum_exact_refused")
 					}
 					if !mustPass && vr.Resp.Code == 0 {
-						if g0, ok := new(big.Int).SetString(vr.Tags["tx.volume0"], 10); ok && g0.Cmp(min0) < 0 {
-							w.Report("C13", "pool-value", "tight-minimum-ignored", fmt.Sprintf("height %d: removal asking for at least %s of the first coin is accepted and returns %s", p.Height, min0, g0), p.Height)
+						g0, ok0 := new(big.Int).SetString(vr.Tags["tx.volume0"], 10)
+						g1, ok1 := new(big.Int).SetString(vr.Tags["tx.volume1"], 10)
+						if (ok0 && g0.Cmp(min0) < 0) || (ok1 && g1.Cmp(min1) < 0) {
+							w.Report("C13", "pool-value", "tight-minimum-ignored", fmt.Sprintf("height %d: removal asking for at least %s / %s is accepted and returns %s / %s", p.Height, min0, min1, g0, g1), p.Height)
 							return false
 						}
 					}
@@ -206,6 +208,12 @@ func (OracleC13) Judge(w *World, b *BlockCtx, p *ProbeResult) {
 						return
 					}
 					if !try(new(big.Int).Add(v0, big.NewInt(1)), v1, false, "asking for one unit more of the first coin") {
+						return
+					}
+					if !try(new(big.Int).Add(v0, big.NewInt(1)), big.NewInt(0), false, "asking for one unit more of the first coin and nothing of the second") {
+						return
+					}
+					if !try(big.NewInt(0), new(big.Int).Add(v1, big.NewInt(1)), false, "asking for nothing of the first coin and one unit more of the second") {
 						return
 					}
 					w.Probe("c13_remove_tight_minimum_checked")
